@@ -142,9 +142,12 @@ theorem trailing_semicolon (T : PrecTables) (hT : InertBoundary T) (fuel0 : Nat)
 the same slots — `trailing_semicolon_statement_partial`. Together with `trailing_semicolon` (clauses),
 `trailing_semicolon_no_clause` and `trailing_semicolon_after_statement` (`parseOp` looks for one optional `;` and
 returns the statement unchanged) this is the code's whole treatment of the semicolon.
-Full statement not proved: `parseTokens (pre ++ [⟨l, ;⟩, ⟨l', End⟩])` and `parseTokens (pre ++ [⟨l, End⟩])` give the same
-tree for every `pre`. Missing: prefix determinism for the functions that run before the clause loop (projection loop,
-`FROM` table, file) and for CREATE TABLE statements — the expression parser, the clause loop and `parseOp` are covered. -/
+Not proved at the level of whole statements: for `pre` = `SELECT … FROM t` followed by clauses,
+`parseTokens (pre ++ [⟨l, ;⟩, ⟨l', End⟩])` and `parseTokens (pre ++ [⟨l, End⟩])` give the same tree. Missing: prefix
+determinism for the functions that run before the clause loop (projection loop, `FROM` table, file) — the expression
+parser, the clause loop and `parseOp` are covered. (The equation cannot hold for *every* `pre`: with
+`pre = SELECT x FROM t ; ;` the first vector is rejected with `TooManyTokens`, the second is accepted — the model
+evaluates so, and so does the code; CREATE TABLE needs its `;` anyway.) -/
 theorem trailing_semicolon_statement_partial (T : PrecTables) (fuel : Nat) (c : Clauses) (l l' : Loc) :
     clauseLoop T (fuel + 1) c { cur := ⟨l, .semi⟩, rest := [⟨l', .eof⟩] } = .ok c { cur := ⟨l', .eof⟩, rest := [] } := by
   simp [clauseLoop, clauseTurn, next]
